@@ -476,9 +476,23 @@ func (g *Gen) selectInstr(st *State, x *ssa.Select) {
 
 func (g *Gen) makeClosure(st *State, x *ssa.MakeClosure) {
 	r := g.allocRef(st, x.Name())
+	// a closure that is only deferred by this very function runs in this frame at
+	// exit: what it captures does not escape through it
+	deferOnly := x.Referrers() != nil
+	if deferOnly {
+		for _, u := range *x.Referrers() {
+			switch u.(type) {
+			case *ssa.Defer, *ssa.DebugRef:
+			default:
+				deferOnly = false
+			}
+		}
+	}
 	for _, b := range x.Bindings {
 		v := g.val(st, b)
-		g.escape(v)
+		if !deferOnly {
+			g.escape(v)
+		}
 		if v.K == VAddr && !(v.A.Root == RObj && len(v.A.Path) == 0) {
 			g.unsupported("closure captures a local cell by reference (%s)", b.Name())
 		}
@@ -657,4 +671,102 @@ func (g *Gen) checkDecreases(st *State, f *ssa.Function, c *Contract, args []Val
 		return
 	}
 	g.oblige(st, "decreases", "", "recursive call decreases "+c.Decreases.Text, pos, And(Le(IntLit(0), ma), Lt(ma, mp)))
+}
+
+
+// immutableCapture: the variable a closure captures through fv is assigned exactly once,
+// in the function that declares it, and by no closure that captures it — so every load
+// of the captured cell gives the value it had when the closure was entered, whatever
+// runs in between (callees can only change it by assigning it through some closure).
+func (g *Gen) immutableCapture(fv *ssa.FreeVar) bool {
+	if g.immCap == nil {
+		g.immCap = map[*ssa.FreeVar]bool{}
+	}
+	if r, ok := g.immCap[fv]; ok {
+		return r
+	}
+	r := captureImmutable(g.Fn, fv, 0)
+	g.immCap[fv] = r
+	return r
+}
+
+// captureImmutable walks from a free variable of fn to the binding in the parent
+// that creates fn, up to the allocation of the variable.
+func captureImmutable(fn *ssa.Function, fv *ssa.FreeVar, depth int) bool {
+	parent := fn.Parent()
+	if parent == nil || depth > 6 {
+		return false
+	}
+	idx := -1
+	for i, f := range fn.FreeVars {
+		if f == fv {
+			idx = i
+		}
+	}
+	if idx < 0 {
+		return false
+	}
+	var binding ssa.Value
+	for _, b := range parent.Blocks {
+		for _, in := range b.Instrs {
+			if mc, ok := in.(*ssa.MakeClosure); ok && mc.Fn == fn && idx < len(mc.Bindings) {
+				if binding != nil && binding != mc.Bindings[idx] {
+					return false
+				}
+				binding = mc.Bindings[idx]
+			}
+		}
+	}
+	switch b := binding.(type) {
+	case *ssa.Alloc:
+		return cellAssignedOnce(b, 1)
+	case *ssa.FreeVar:
+		// captured by the parent too: no store through the parent's own handle, and
+		// the declaring function assigns it once
+		if !cellAssignedOnce(b, 0) {
+			return false
+		}
+		return captureImmutable(parent, b, depth+1)
+	}
+	return false
+}
+
+// cellAssignedOnce: at most maxStores stores go through v (an Alloc or a FreeVar) in
+// its function, none in any closure that captures it (recursively), and the address
+// is used for nothing but loads, stores, debug references and closure bindings.
+func cellAssignedOnce(v ssa.Value, maxStores int) bool {
+	refs := v.Referrers()
+	if refs == nil {
+		return false
+	}
+	stores := 0
+	for _, r := range *refs {
+		switch u := r.(type) {
+		case *ssa.Store:
+			if u.Addr != v {
+				return false // the address itself is stored somewhere
+			}
+			stores++
+		case *ssa.UnOp:
+			if u.Op != token.MUL {
+				return false
+			}
+		case *ssa.DebugRef:
+		case *ssa.MakeClosure:
+			cf, ok := u.Fn.(*ssa.Function)
+			if !ok {
+				return false
+			}
+			for i, bnd := range u.Bindings {
+				if bnd == v {
+					if i >= len(cf.FreeVars) || !cellAssignedOnce(cf.FreeVars[i], 0) {
+						return false
+					}
+				}
+			}
+		default:
+			return false
+		}
+	}
+	return stores <= maxStores
 }
